@@ -1000,6 +1000,27 @@ class C05(PropertyCheck):
                 rt_o, bs)
             chk("labs glm (kalman) on a 3-D block differs from the 2-D fit", np.asarray(K3.beta).reshape(p, v),
                 K.beta, 10 * rk, bs)
+            # contrasts of the 3-D block (single row and several rows): each voxel keeps its own effect and
+            # covariance, whatever the layout of the voxels and for both engines and both axis conventions
+            Cq = np.vstack([c, np.eye(p)[(int(np.argmax(np.abs(c))) + 1) % p]]) if p >= 2 else None
+            Y3b = np.ascontiguousarray(np.transpose(Y3, (1, 0, 2)))       # time axis in the middle
+            for nm, fit2, fit3 in (("ols", L, L3), ("kalman", K, K3), ("ols, axis=1", L, lg.glm(Y3b, X, axis=1))):
+                for Cm_ in ([c] if Cq is None else [c, Cq]):
+                    Cm_ = np.asarray(Cm_, float)
+                    for ty in (("t",) if Cm_.ndim == 1 else ("F", "tmin")):
+                        try:
+                            a2 = fit2.contrast(Cm_, type=ty); a3 = fit3.contrast(Cm_, type=ty)
+                        except Exception as e:      # noqa: BLE001
+                            if fail is None:
+                                fail = f"labs glm ({nm}) contrast (type {ty}) on a 3-D block raised {type(e).__name__}: {e}"
+                            continue
+                        e2 = np.asarray(a2.effect, float); e3 = np.asarray(a3.effect, float).reshape(e2.shape)
+                        v2 = np.asarray(a2.variance, float); v3 = np.asarray(a3.variance, float).reshape(v2.shape)
+                        tol = (10 * rk) if nm == "kalman" else rt_o
+                        chk(f"labs glm ({nm}) {ty} contrast effect on a 3-D block differs from the 2-D fit", e3, e2, tol,
+                            bs * float(np.abs(Cm_).sum()))
+                        chk(f"labs glm ({nm}) {ty} contrast variance on a 3-D block differs from the 2-D fit "
+                            f"(voxels mixed up?)", v3, v2, tol, max(1e-300, float(np.abs(v2).max())))
             tags.append("3-D")
         # Kalman engine: ridge with lambda = 1e-7 (theorem kalman_is_ridge) => |b - b_ols| <= lambda |G| |b_ols|
         G = np.linalg.inv(X.T @ X)
